@@ -261,7 +261,23 @@ pub fn run(a: &Args) -> i32 {
         "only the magic multipliers drawn by this build are examined (each draw examined is covered exhaustively; the 2^64-sized draw space is not enumerable)".to_string(),
         "friendly blockers are covered through the union semantics on walked positions, not on the full occupancy product".to_string(),
     ];
-    rep.mandatory = vec!["direct_table_queries".into(), "walk_attack_queries".into()];
+    // further draws of the magic constants, produced in process by the repository's own generator
+    // (precompile crate) and checked for structural soundness (see `generator_draws`)
+    let k = if a.tier == "thorough" { 200 } else { 32 };
+    match generator_draws(k, &sink) {
+        Ok((draws, entries, subsets)) => {
+            rep.add("generator_draws_checked", draws);
+            rep.add("generator_magic_entries_checked", entries);
+            rep.add("generator_blocker_subsets_checked", subsets);
+            rep.states += entries;
+            rep.transitions += subsets;
+        }
+        Err(e) => {
+            eprintln!("MACHINERY-ERROR: {}", e);
+            return 2;
+        }
+    }
+    rep.mandatory = vec!["direct_table_queries".into(), "walk_attack_queries".into(), "generator_draws_checked".into()];
     if a.tier == "thorough" {
         if let Err(e) = crate::draws::run_draws("C11", 4, &mut rep, &sink) {
             eprintln!("MACHINERY-ERROR: {}", e);
@@ -377,4 +393,109 @@ pub fn replay(v: &serde_json::Value) -> i32 {
             0
         }
     }
+}
+
+/// `k` fresh draws of the magic constants from the repository's own generator
+/// (`precompile::magic::find_magics::find_and_write_all_magics`), each checked for the conditions
+/// under which the run-time lookup `table[offset + ((occ & mask) * magic >> shift)]` (whose
+/// formula is exercised exhaustively on this build's draw by the enumeration above) is exact:
+/// (1) the mask is the set of ray squares without the edges, (2) the per-square segments
+/// [offset, offset + 2^(64-shift)) are pairwise disjoint and inside the declared table size,
+/// (3) blocker subsets that share an index have the same attack set.
+fn generator_draws(k: usize, sink: &Sink) -> Result<(u64, u64, u64), String> {
+    use std::io::BufWriter;
+    let dir = format!("{}/target/magic-draws", crate::report::verif_dir());
+    std::fs::create_dir_all(&dir).map_err(|e| e.to_string())?;
+    let results: Vec<Result<(u64, u64), String>> = (0..k)
+        .into_par_iter()
+        .map(|i| {
+            let path = format!("{}/draw_{}_{}.rs", dir, std::process::id(), i);
+            {
+                let f = std::fs::File::create(&path).map_err(|e| e.to_string())?;
+                let mut w = BufWriter::new(f);
+                guarded(|| precompile::magic::find_magics::find_and_write_all_magics(&mut w)).map_err(|p| format!("the magic generator panicked: {}", p))?.map_err(|e| e.to_string())?;
+            }
+            let text = std::fs::read_to_string(&path).map_err(|e| e.to_string())?;
+            let _ = std::fs::remove_file(&path);
+            let mut entries = 0u64;
+            let mut subsets = 0u64;
+            for (name, dirs) in [("ROOK", &ROOK_DIRS), ("BISHOP", &BISHOP_DIRS)] {
+                let start = text.find(&format!("pub const {}_MAGICS", name)).ok_or("generated text has no magics table")?;
+                let body = &text[start..];
+                let end = body.find("];").ok_or("unterminated table")?;
+                let mut es: Vec<(u64, u64, u32, usize)> = Vec::new();
+                for line in body[..end].lines().filter(|l| l.contains("MagicEntry {")) {
+                    let field = |key: &str| -> Option<String> { line.split(&format!("{}: ", key)).nth(1).map(|r| r.split(|c| c == ',' || c == ' ' || c == '}').next().unwrap_or("").to_string()) };
+                    let hex = |s: String| u64::from_str_radix(s.trim_start_matches("0x"), 16).ok();
+                    let mask = field("mask").and_then(hex).ok_or("bad mask")?;
+                    let magic = field("magic").and_then(hex).ok_or("bad magic")?;
+                    let shift: u32 = field("shift").and_then(|s| s.parse().ok()).ok_or("bad shift")?;
+                    let offset: usize = field("offset").and_then(|s| s.parse().ok()).ok_or("bad offset")?;
+                    es.push((mask, magic, shift, offset));
+                }
+                if es.len() != 64 {
+                    return Err(format!("{} table has {} entries", name, es.len()));
+                }
+                let size: usize = text.split(&format!("pub const {}_TABLE_SIZE: usize = ", name)).nth(1).and_then(|r| r.split(';').next()).and_then(|s| s.trim().parse().ok()).ok_or("no table size")?;
+                let mut segs: Vec<(usize, usize, usize)> = Vec::new();
+                for (sq, (mask, magic, shift, offset)) in es.iter().enumerate() {
+                    entries += 1;
+                    let rays = ray_squares(sq as u8, dirs);
+                    let want_mask: u64 = rays.iter().flat_map(|r| r.iter().take(r.len().saturating_sub(1))).fold(0u64, |m, s| m | (1u64 << s));
+                    let bad = |class: &str, detail: String| {
+                        sink.push(Violation { prop: "C11".into(), class: class.into(), seed: format!("generator draw {}: {} magic for {}", i, name, sq_name(sq as u8)), path: vec![], detail, extra: json!({"kind": "c11-draw", "entry": {"mask": mask, "magic": magic, "shift": shift, "offset": offset}}) });
+                    };
+                    if *mask != want_mask {
+                        bad("generated-mask-wrong", format!("mask {:#018x}, relevant blockers {:#018x}", mask, want_mask));
+                    }
+                    if *shift == 0 || *shift > 63 {
+                        bad("generated-shift-out-of-range", format!("shift {}", shift));
+                        continue;
+                    }
+                    let len = 1usize << (64 - shift);
+                    segs.push((*offset, offset + len, sq));
+                    if offset + len > size {
+                        bad("generated-segment-outside-table", format!("segment [{}, {}) but table size {}", offset, offset + len, size));
+                    }
+                    // subsets sharing an index must share the attack set
+                    let mut slot: rustc_hash::FxHashMap<usize, u64> = rustc_hash::FxHashMap::default();
+                    let mut b = 0u64;
+                    loop {
+                        subsets += 1;
+                        let idx = ((b & mask).wrapping_mul(*magic) >> shift) as usize;
+                        let att = expected_slider(&rays, b);
+                        match slot.get(&idx) {
+                            Some(prev) if *prev != att => {
+                                bad("generated-magic-collides", format!("blocker set {:#018x} shares index {} with a set that has another attack set", b, idx));
+                                break;
+                            }
+                            Some(_) => {}
+                            None => {
+                                slot.insert(idx, att);
+                            }
+                        }
+                        b = b.wrapping_sub(*mask) & mask;
+                        if b == 0 {
+                            break;
+                        }
+                    }
+                }
+                segs.sort();
+                for w in segs.windows(2) {
+                    if w[0].1 > w[1].0 {
+                        sink.push(Violation { prop: "C11".into(), class: "generated-segments-overlap".into(), seed: format!("generator draw {}: {} tables of {} and {}", i, name, sq_name(w[0].2 as u8), sq_name(w[1].2 as u8)), path: vec![], detail: format!("segment [{}, {}) of {} overlaps segment [{}, {}) of {}: lookups of one square can return the other square's attack sets", w[0].0, w[0].1, sq_name(w[0].2 as u8), w[1].0, w[1].1, sq_name(w[1].2 as u8)), extra: json!({"kind": "c11-draw"}) });
+                    }
+                }
+            }
+            Ok((entries, subsets))
+        })
+        .collect();
+    let mut e = 0;
+    let mut sb = 0;
+    for r in results {
+        let (a, b) = r?;
+        e += a;
+        sb += b;
+    }
+    Ok((k as u64, e, sb))
 }
